@@ -185,8 +185,11 @@ pub fn apply(
             (out, bound(Class::Structural))
         }
         MutKind::Extend { extra } => {
+            // Bytes after the TLV structure: whether they are ignored or make the message
+            // invalid is not stated, so this stays "structural" even for transcript-bound
+            // messages.
             out.extend_from_slice(extra);
-            (out, bound(Class::Structural))
+            (out, Class::Structural)
         }
         MutKind::BadPoint { which } => {
             let Some((vo, _)) = tlv_string_values(&w.payload)
